@@ -351,7 +351,9 @@ func checkC07(c *Ctx) {
 		}
 	}
 	c.Decides("NEW-BRANCH-ZERO (go/cfg): the connecting branch resolveRecur creates gets the constant length 0 on every path after its creation")
-	c.newBranchZero("NEW-BRANCH-ZERO", c.Func("tree", "Tree", "resolveRecur"), "only adds zero-length branches without support")
+	for _, h := range c.withHelpers(c.Func("tree", "Tree", "resolveRecur"), 2) {
+		c.newBranchZero("NEW-BRANCH-ZERO", h, "only adds zero-length branches without support")
+	}
 	c.Floor("NEW-BRANCH-ZERO", 1)
 	// resolveRecur / AddBipartition transfers
 	if fi := c.Func("tree", "Tree", "resolveRecur"); fi != nil {
